@@ -522,7 +522,7 @@ namespace c07
     void judge(const Op& op, const Result& r, const std::string& ctx)
     {
       const std::string sn = cname(s);
-      const std::string sv = std::string(SNAME[s]) + " precond=" + PNAME[p] + (lim.tol_rel == 0.0 ? " tol_rel=0" : "") + key_tag; // variant + preconditioner class: keys of the truthfulness checks
+      const std::string sv = std::string(SNAME[s]) + " precond=" + PNAME[p] + key_tag; // variant + preconditioner class: keys of the truthfulness checks
       auto why = [&]{ char b[400]; snprintf(b, sizeof b, " -> status=%s iters=%u def_init=%.6g def_final=%.6g x=", stname(r.st), unsigned(r.iters), r.d0, r.d1);
         return where + " | " + ctx + opstr(op) + b + vstr(r.x); };
       const std::vector<LD>& b = rhs[op.rhs];
@@ -551,6 +551,7 @@ namespace c07
       //  the short-recurrence methods then drifts away from b-Ax. The status claims nothing there; counted, not reported.)
       if(xfinite && lim.tol_rel == 0.0 && (r.st == Status::max_iter || r.st == Status::diverged))
       { if(!(std::isfinite(r.d1) && fabsl(LD(r.d1) - d_true) <= 1e-6L * d0_true + round)) c.count("tol_rel=0: recursive defect drifted before max_iter/diverged"); }
+      else if(lim.tol_rel == 0.0 && r.st == Status::success && r.iters > 0) {} // judged below under its own key
       else if(xfinite && r.st != Status::aborted && !skip_active)
         chk(c, std::isfinite(r.d1) && fabsl(LD(r.d1) - d_true) <= 1e-6L * d0_true + round, "solvers.def_final-untrue " + sv,
           [&]{ char q[80]; snprintf(q, sizeof q, " | true residual %.6Lg", d_true); return why() + q; });
@@ -564,7 +565,11 @@ namespace c07
         else
         {
           if(!skip_active) chk(c, conv(r.d1, r.d0), "solvers.success-but-criterion-unmet(reported) " + sn, why);
-          if(skip_active) { if(!xfinite) c.outcome("skip-active: success/max_iter with non-finite x (defect never computed)"); }
+          if(lim.tol_rel == 0.0 && !skip_active)
+            // tol_rel = 0: success is only possible on an exactly vanishing reported defect; it must then be the defect of the iterate
+            chk(c, xfinite && d_true <= round, std::string("solvers.tol_rel=0 success on an exactly vanishing recursive defect although b-Ax != 0 ") + SNAME[s] + key_tag,
+              [&]{ char q[120]; snprintf(q, sizeof q, " | true residual %.6Lg (rounding level %.3Lg)", d_true, round); return why() + q; });
+          else if(skip_active) { if(!xfinite) c.outcome("skip-active: success/max_iter with non-finite x (defect never computed)"); }
           else chk(c, xfinite && d_true <= LD(lim.tol_rel) * d0_true * (1 + 1e-6L) + 1e-6L * LD(lim.tol_rel) * d0_true + round, "solvers.success-but-true-residual-large " + sv,
             [&]{ char q[120]; snprintf(q, sizeof q, " | true residual %.6Lg > tol_rel*d0 = %.6Lg", d_true, LD(lim.tol_rel) * d0_true); return why() + q; });
           if(!tr.half_step) chk(c, r.iters >= lim.min_iter, "solvers.success-before-min_iter " + sn, why);
@@ -591,7 +596,8 @@ namespace c07
         const int kdim = (s == S_FGMRES2 || s == S_GMRES2) ? 2 : 3;
         if(tr.gmres_like && nfree > kdim) in_scope = false;
       }
-      if((s == S_PMR || s == S_RICHARDSON1) && !sys.symmetric) in_scope = false; // undamped Richardson: the Jacobi/SSOR iteration itself must contract       // one-dimensional residual projection: needs a definite symmetric part of the preconditioned operator
+      if((s == S_PMR || s == S_RICHARDSON1) && !sys.symmetric) in_scope = false;
+      { bool anyfix = false; for(char f : fixed) anyfix = anyfix || f; if(s == S_RICHARDSON1 && anyfix) in_scope = false; } // the preconditioners are built on the unfiltered matrix // undamped Richardson: the Jacobi/SSOR iteration itself must contract       // one-dimensional residual projection: needs a definite symmetric part of the preconditioned operator
       if(s == S_CHEBYSHEV && !cheb_interval_ok) { in_scope = false; c.count("chebyshev_power_method_interval_misses_spectrum"); }
       if(generous && in_scope && !(op.kind == 0 && op.x0 != 0))
       {
